@@ -81,8 +81,7 @@ fn one(ctx: &Ctx, rng: &mut StdRng, b: &Value, only: &[&'static str], rep: &mut 
             // a fresh well-formed reply set for this attempt (its own challenge)
             let entry = p;
             let cands: Vec<&Value> = ctx.layouts.all.iter().filter(|l| l["layout"]["entry"] == entry).collect();
-            let l = cands[rng.gen_range(0 .. cands.len())];
-            let bb = proto::build(rng, l);
+            let bb = proto::build_fitting(rng, &cands);
             if let Some(c) = bb.values.get("__chal").and_then(|c| c.as_i64()) {
                 chal_of_attempt.insert(a, c as i32);
             }
@@ -285,8 +284,7 @@ pub fn trace_random(ctx: &Ctx, seed: u64, runs: usize, dump: Option<usize>, out:
         let mut round_bytes: std::collections::HashMap<(u64, u64), [u8; 4]> = Default::default();
         let mut attempt = 1u64;
         'query: loop {
-            let l = cands[rng.gen_range(0 .. cands.len())];
-            let bb = proto::build(&mut rng, l);
+            let bb = proto::build_fitting(&mut rng, &cands);
             if let Some(c) = bb.values.get("__chal").and_then(|c| c.as_i64()) {
                 chal_of_attempt.insert(attempt, c as i32);
             }
